@@ -80,6 +80,16 @@ def root_of(fn, i):
                 i = obj
                 continue
             return 'temp', path[::-1]
+        if k == 'CallExpr' and 'callee' in n and n['callee'].get('inrepo') and n['callee'].get('ret', '').endswith('&'):
+            # free helper returning a reference into one of its reference parameters
+            summ = returns_param_alias(prog, n['callee']['usr'])
+            args = fn.call_args(n)
+            if summ is None or summ[0] >= len(args):
+                return 'unknown', path[::-1]
+            for comp in summ[1][::-1]:
+                path.append(comp)
+            i = args[summ[0]]
+            continue
         if k in ('CXXConstructExpr', 'CXXTemporaryObjectExpr', 'CXXFunctionalCastExpr', 'CallExpr',
                  'CXXNewExpr', 'InitListExpr', 'CXXStdInitializerListExpr', 'BinaryOperator',
                  'ConditionalOperator', 'CXXDefaultArgExpr'):
@@ -142,6 +152,32 @@ def returns_alias(prog, usr, depth=0):
         elif out != p:
             out = None
             break
+    _alias_cache[key] = out
+    return out
+
+
+def returns_param_alias(prog, usr):
+    """for a repo free function returning a reference: (parameter index, path below it) when every
+    return designates the same place below the same reference parameter; else None"""
+    key = (id(prog), usr, 'param')
+    if key in _alias_cache:
+        return _alias_cache[key]
+    f = prog.funcs.get(usr)
+    _alias_cache[key] = None
+    if f is None:
+        return None
+    out = None
+    for r in f.all_nodes({'ReturnStmt'}):
+        if not r['ch']:
+            return None
+        kind, p = root_of(f, r['ch'][0])
+        if kind != 'param' or not p or not p[0].startswith('#'):
+            return None
+        cur = (int(p[0][1:]), p[1:])
+        if out is None:
+            out = cur
+        elif out != cur:
+            return None
     _alias_cache[key] = out
     return out
 
